@@ -50,12 +50,20 @@ template <> struct cname<wchar_t>
 // alphabet 1 (wchar_t only): newline plus three characters whose low byte / low 16 bits
 //   equal '\n' or that do not fit a char -- a stream that narrows before comparing with
 //   the newline would miscount lines.
+// alphabet 2 (char only): {a, newline, 0xFF, 0x80} -- bytes that are negative as (signed) char;
+//   0xFF narrowed to char equals char_traits<char>::eof() narrowed to char, so a stream that
+//   compares after narrowing takes it for the end of input.
 template <class Ch> inline Ch letter(int alphabet, int d)
 {
   if (alphabet == 0)
   {
     Ch const a[4] = {Ch('a'), Ch('\n'), Ch(' '), Ch('\t')};
     return a[d];
+  }
+  if (alphabet == 2)
+  {
+    unsigned char const b[4] = {'a', '\n', 0xFFU, 0x80U};
+    return static_cast<Ch>(b[d]);
   }
   std::uint32_t const w[4] = {0x263AU, 0x0AU, 0x0A0AU, 0x1000AU};
   return static_cast<Ch>(w[d]);
@@ -155,13 +163,18 @@ template <class Ch> inline loc model_loc(std::basic_string<Ch> const &text, std:
 template <class Ch> using stream_ref = fcppt::reference<fcppt::parse::basic_stream<Ch>>;
 template <class Ch> using position = fcppt::parse::position<Ch>;
 
-// compare a position returned by fcppt with the model; returns a description of the difference or ""
-template <class Ch> inline std::string position_diff(position<Ch> const &p, std::basic_string<Ch> const &text, std::size_t i)
+// compare a position returned by fcppt with the model; returns a description of the difference or "".
+// base >= 0: the offset must be base + i (base = 0: the stream was built on a fresh std stream, the string
+// a_1..a_n of the documentation is the whole content).  base < 0: the offset value is not examined (the parse
+// stream was built on a std stream from which characters had already been read; the documentation does not
+// say what the offset of such a stream counts from).
+template <class Ch>
+inline std::string position_diff(position<Ch> const &p, std::basic_string<Ch> const &text, std::size_t i, long long base = 0)
 {
   std::string r;
   long long const off = static_cast<long long>(std::streamoff(p.pos()));
-  if (off != static_cast<long long>(i))
-    r += vrt::fmt("offset %lld, expected %zu; ", off, i);
+  if (base >= 0 && off != base + static_cast<long long>(i))
+    r += vrt::fmt("offset %lld, expected %lld; ", off, base + static_cast<long long>(i));
   loc const m = model_loc(text, i);
   if (!p.location().has_value())
     r += "no location; ";
@@ -184,12 +197,20 @@ template <class Ch> struct real_stream
   stream_ref<Ch> ref() { return fcppt::reference_to_base<fcppt::parse::basic_stream<Ch>>(fcppt::make_ref(st)); }
 };
 
-// fixture: istringstream + stream
+// fixture: istringstream + stream.  `skip` characters are read from the istringstream with plain
+// std::istream::get() calls *before* the parse stream is constructed on it.
 template <class Ch> struct string_world
 {
   std::basic_istringstream<Ch> is;
   real_stream<Ch> rs;
-  explicit string_world(std::basic_string<Ch> const &t) : is(t), rs(is) {}
+  static std::basic_istream<Ch> &pre_read(std::basic_istream<Ch> &s, std::size_t skip)
+  {
+    for (std::size_t i = 0; i < skip; ++i)
+      if (s.get() == std::char_traits<Ch>::eof())
+        vrt::fail("harness:pre_read", "the text is shorter than the number of characters to read in advance");
+    return s;
+  }
+  explicit string_world(std::basic_string<Ch> const &t, std::size_t skip = 0) : is(t), rs(pre_read(is, skip)) {}
   stream_ref<Ch> ref() { return rs.ref(); }
   // offset of the next unread character of the underlying buffer; does not touch the stream state
   long long underlying_offset() { return static_cast<long long>(std::streamoff(is.rdbuf()->pubseekoff(0, std::ios_base::cur, std::ios_base::in))); }
@@ -198,4 +219,5 @@ template <class Ch> struct string_world
 void register_straight();
 void register_fault();
 void register_errtext();
+void register_bytes();
 }
